@@ -570,8 +570,19 @@ def dispFn (f : Fn) (recv : Option Kind) (args : List AShape) : Option Disp :=
        | .with_ => some early                                   -- no parameter of that name, no `**`
        | _ => none)                                             -- keyword arguments of the other builtins: outside
 
+/-- the member names the standard library answers on date/time values (`#property#year` ...): on any other receiver
+    `e.year` is "no matching function", not "unknown function".  They are OUTSIDE the fragment (`Eval.memberOf` does not
+    know them; the program generator never draws them). -/
+def dateTimeProperties : List Name :=
+  [['d', 'a', 't', 'e'], ['d', 'a', 'y'], ['d', 'a', 'y', 's'], ['h', 'o', 'u', 'r'], ['h', 'o', 'u', 'r', 's'], ['m', 'i', 'c', 'r', 'o', 's', 'e', 'c', 'o', 'n', 'd'], ['m', 'i', 'c', 'r', 'o', 's', 'e', 'c', 'o', 'n', 'd', 's'], ['m', 'i', 'l', 'l', 'i', 's', 'e', 'c', 'o', 'n', 'd', 's'], ['m', 'i', 'n', 'u', 't', 'e'],
+   ['m', 'i', 'n', 'u', 't', 'e', 's'], ['m', 'o', 'n', 't', 'h'], ['o', 'f', 'f', 's', 'e', 't'], ['s', 'e', 'c', 'o', 'n', 'd'], ['s', 'e', 'c', 'o', 'n', 'd', 's'], ['t', 'i', 'm', 'e'], ['t', 'i', 'm', 'e', 's', 't', 'a', 'm', 'p'], ['u', 't', 'c'], ['w', 'e', 'e', 'k', 'd', 'a', 'y'], ['y', 'e', 'a', 'r']]
+
 /-- the call sites of `Eval.step`, by the function and the argument list `runner.call` gets -/
 def dispatchOf (s0 : CallShape) : Option Disp :=
+  if let .property n := s0.callee then
+    -- `#property#n(obj)`: whatever the object, nothing is registered under the name
+    (if dateTimeProperties.contains n then none else some ⟨[], .unknown⟩)
+  else
   -- only `#operator_.` looks at the class of an argument expression
   let s : CallShape := if s0.callee == .dot then s0 else { s0 with args := s0.args.map AShape.unFn }
   let noRule := !s.args.any AShape.isRule
@@ -594,7 +605,7 @@ def dispatchOf (s0 : CallShape) : Option Disp :=
     (match s.args with | [l, r] => if l.isRule || r.isRule then none else some (dispArrow l) | _ => none)
   | .un op, none => (match s.args with | [a] => if a.isRule then none else some (dispUn op a) | _ => none)
   | .bin op, none => (match s.args with | [a, b] => if noRule then some (dispBin op a b) else none | _ => none)
-  | .property _, none => some ⟨[], .unknown⟩
+  | .property _, none => none
 
 /-! ## the same call for the resolution model -/
 
